@@ -74,7 +74,10 @@ func runHeader(c *hx.Ctx) {
 			if c.Chance(0.3) {
 				l = 14 + c.Intn(4)
 			}
-			b := c.RandBytes(l)
+			// the packet is a sub-slice of a larger dirty buffer, as a reused UDP read buffer is: Parse must
+			// judge len(b), not cap(b), and must not read the stale bytes behind it
+			big := c.RandBytes(l + 8 + c.Intn(24))
+			b := big[:l]
 			var h header.H
 			h.Version, h.Reserved, h.RemoteIndex = 0xaa, 0xbbbb, 0xcccccccc // dirty: Parse must not leave stale fields
 			err := h.Parse(b)
